@@ -130,7 +130,21 @@ def build_ppart(perf):
                          controls=[dict(c) for c in perf["controls"]], ppq=perf["ppq"], mpq=perf["mpq"])
 
 
-def make_case(rng, size="small", klass=None, meters=None, features=None, divs=None):
+def rename_ids(part, style):
+    """Score note ids in other customary forms: plain numbers (old match files), n<k>-<r> (unfolded scores)."""
+    if style == "default":
+        return
+    import partitura.score as S
+    k = 0
+    for tp in part._points:
+        for c, objs in tp.starting_objects.items():
+            if objs and issubclass(c, S.Note):
+                for o in objs:
+                    k += 1
+                    o.id = str(k) if style == "numeric" else f"n{k}-{1 + k % 2}"
+
+
+def make_case(rng, size="small", klass=None, meters=None, features=None, divs=None, id_style=None):
     c = Case()
     if features is None:
         features = [f for f in FEATURES if rng.random() < 0.5]
@@ -143,7 +157,10 @@ def make_case(rng, size="small", klass=None, meters=None, features=None, divs=No
     if n_measures == 1:
         features = [f for f in features if f != "pickup"]     # a lone pickup bar would be a truncated final measure
     part, meta = gen_score.make_part(rng, "P1", features=features, divs=divs, meters=meters, n_measures=n_measures,
-                                     voices=(rng.randint(2, 3) if "multivoice" in features else 1))
+                                     voices=(rng.randint(2, 3) if "multivoice" in features else 1),
+                                     voice_base=rng.choice([0, 0, 0, 4, 9]), max_alter=rng.choice([1, 1, 2]))
+    c.id_style = id_style or rng.choices(["default", "numeric", "suffixed"], [0.7, 0.15, 0.15])[0]
+    rename_ids(part, c.id_style)
     c.part, c.meta, c.features = part, meta, features
     c.klass = klass or rng.choices(["complete", "uncovered", "few-matches"], [0.86, 0.07, 0.07])[0]
     c.pid_style = rng.choices(["n", "num", "p"], [0.7, 0.15, 0.15])[0]
